@@ -1,5 +1,5 @@
 CONSTANTS
-  MaxLen = 11
+  MaxLen = 10
   Lenient = TRUE
   Dev = {"drop_after_unknown"}
 INIT Init
